@@ -32,7 +32,15 @@ struct InscriptionInfo {
 }
 
 #[derive(Deserialize, Debug)]
+struct RuneInfo {
+  destination: Option<String>,
+  location: Option<OutPoint>,
+  rune: ordinals::SpacedRune,
+}
+
+#[derive(Deserialize, Debug)]
 struct BatchOutput {
+  rune: Option<RuneInfo>,
   commit: bitcoin::Txid,
   inscriptions: Vec<InscriptionInfo>,
   parents: Vec<InscriptionId>,
@@ -118,6 +126,25 @@ pub fn run(ctx: &Ctx, rep: &mut Report) {
       if mode == "same-sat" && rng.chance(1, 2) && !cardinals.is_empty() {
         yaml.push_str(&format!("satpoint: {}:0\n", rng.pick(&cardinals)));
       }
+      // a rune etched by the same batch: the command waits until the commit has
+      // matured (six blocks), so somebody has to mine while it runs
+      let etch = rng.chance(1, 4);
+      let mut etched: Option<(String, u8, u128, u128)> = None;
+      if etch {
+        let letters: String = (0..rng.usize(13, 17)).map(|_| (b'A' + rng.below(26) as u8) as char).collect();
+        let name = if rng.chance(1, 2) { format!("{}•{}", &letters[..5], &letters[5..]) } else { letters.clone() };
+        let div = rng.below(4) as u8;
+        let unit = 10u128.pow(u32::from(div));
+        let premine = if rng.chance(1, 5) { 0 } else { u128::from(rng.range(1, 5000)) * unit + u128::from(rng.below(unit as u64)) };
+        let (cap, amount) = if rng.chance(1, 2) || premine == 0 { (u128::from(rng.range(1, 50)), u128::from(rng.range(1, 900)) * unit) } else { (0, 0) };
+        let supply = premine + cap * amount;
+        let dec = |v: u128| if div == 0 { v.to_string() } else { format!("{}.{:0w$}", v / unit, v % unit, w = usize::from(div)) };
+        yaml.push_str(&format!("etching:\n  rune: {name}\n  divisibility: {div}\n  premine: {}\n  supply: {}\n  symbol: \"¢\"\n  turbo: {}\n", dec(premine), dec(supply), rng.chance(1, 2)));
+        if cap > 0 {
+          yaml.push_str(&format!("  terms:\n    amount: {}\n    cap: {cap}\n", dec(amount)));
+        }
+        etched = Some((name, div, premine, cap));
+      }
       yaml.push_str("inscriptions:\n");
       let mut destinations: Vec<Option<String>> = Vec::new();
       let mut used_satpoints: Vec<OutPoint> = Vec::new();
@@ -170,9 +197,30 @@ pub fn run(ctx: &Ctx, rep: &mut Report) {
         args.push("--compress".into());
       }
       let argv: Vec<&str> = args.iter().map(|s| s.as_str()).collect();
-      let r = lab.wallet(&argv);
+      let stop = std::sync::atomic::AtomicBool::new(false);
+      let r = std::thread::scope(|scope| {
+        if etch {
+          scope.spawn(|| {
+            // start mining once the commit has been broadcast (mining earlier
+            // would leave the explorer behind the node while the wallet starts)
+            while !stop.load(std::sync::atomic::Ordering::Relaxed) {
+              if !lab.node.handle.state().mempool.is_empty() {
+                break;
+              }
+              std::thread::sleep(std::time::Duration::from_millis(10));
+            }
+            while !stop.load(std::sync::atomic::Ordering::Relaxed) {
+              lab.node.handle.mine_blocks(1);
+              std::thread::sleep(std::time::Duration::from_millis(40));
+            }
+          });
+        }
+        let r = lab.wallet(&argv);
+        stop.store(true, std::sync::atomic::Ordering::Relaxed);
+        r
+      });
       rep.eval();
-      rep.distinct(&(mode, n, parents.len(), postage, cfg.sats));
+      rep.distinct(&(mode, n, parents.len(), postage, cfg.sats, etch));
       if !r.ok() {
         rep.count(&format!("batches_refused_{mode}"));
         rep.observe(format!("{mode}: {}", r.stderr.chars().take(160).collect::<String>()));
@@ -188,8 +236,9 @@ pub fn run(ctx: &Ctx, rep: &mut Report) {
       };
       let describe = format!("batch file:\n{yaml}report: {:?}", out);
       let mempool = lab.mempool();
-      let commit = mempool.iter().find(|t| t.compute_txid() == out.commit).cloned();
-      let reveal = mempool.iter().find(|t| t.compute_txid() == out.reveal).cloned();
+      let confirmed = |txid: &bitcoin::Txid| lab.node.handle.state().transactions.get(txid).cloned();
+      let commit = mempool.iter().find(|t| t.compute_txid() == out.commit).cloned().or_else(|| confirmed(&out.commit));
+      let reveal = mempool.iter().find(|t| t.compute_txid() == out.reveal).cloned().or_else(|| confirmed(&out.reveal));
       let (Some(commit), Some(reveal)) = (commit, reveal) else {
         rep.violation("C21/reported-transactions-not-broadcast", format!("mempool holds {:?}\n{describe}", mempool.iter().map(|t| t.compute_txid()).collect::<Vec<_>>()), replay.clone());
         continue;
@@ -253,6 +302,46 @@ pub fn run(ctx: &Ctx, rep: &mut Report) {
           bad.push(("unbound-lost-or-burned".into(), format!("inscription {k} has charms {:?}", ordinals::Charm::charms(entry.charms))));
         }
       }
+      // the etched rune
+      match (&etched, &out.rune) {
+        (None, None) => {}
+        (Some((name, div, premine, _cap)), Some(info)) => {
+          let spaced: Option<ordinals::SpacedRune> = name.parse().ok();
+          if Some(info.rune) != spaced {
+            bad.push(("rune-name".into(), format!("batch file names {name}, reported {}", info.rune)));
+          }
+          match lab.explorer.index.runes().unwrap_or_default().into_iter().find(|(_, e)| Some(e.spaced_rune) == spaced) {
+            None => bad.push(("rune-not-etched".into(), format!("rune {name} is not in the index after the reveal was mined"))),
+            Some((id, entry)) => {
+              if entry.etching != out.reveal || entry.premine != *premine || entry.divisibility != *div {
+                bad.push(("rune-entry".into(), format!("entry {entry:?} vs batch file premine {premine} divisibility {div}, reveal {}", out.reveal)));
+              }
+              let balances: std::collections::BTreeMap<OutPoint, Vec<(ordinals::RuneId, u128)>> = lab.explorer.index.get_rune_balances().unwrap_or_default().into_iter().collect();
+              if *premine > 0 {
+                match info.location {
+                  None => bad.push(("rune-location-missing".into(), "premine > 0 but no location reported".into())),
+                  Some(loc) => {
+                    let held: u128 = balances.get(&loc).map(|b| b.iter().filter(|(i, _)| *i == id).map(|(_, a)| *a).sum()).unwrap_or(0);
+                    if held != *premine {
+                      bad.push(("rune-premine-location".into(), format!("reported premine location {loc} holds {held} units, premine is {premine}")));
+                    }
+                    let addr = lab.txout(&loc).and_then(|o| Address::from_script(&o.script_pubkey, Network::Regtest).ok()).map(|a| a.to_string());
+                    if addr != info.destination {
+                      bad.push(("rune-destination".into(), format!("premine output pays {addr:?}, reported {:?}", info.destination)));
+                    }
+                    if !lab.txout(&loc).is_some_and(|o| lab.is_wallet_script(&o.script_pubkey)) {
+                      bad.push(("rune-premine-not-in-wallet".into(), format!("premine output {loc} does not pay a wallet address")));
+                    }
+                  }
+                }
+              } else if info.location.is_some() {
+                bad.push(("rune-location-without-premine".into(), format!("{:?}", info.location)));
+              }
+            }
+          }
+        }
+        (a, b) => bad.push(("rune-report".into(), format!("batch file etching {a:?}, reported {b:?}"))),
+      }
       if out.parents != parents {
         bad.push(("reported-parents".into(), format!("reported {:?}, batch file {:?}", out.parents, parents)));
       }
@@ -282,6 +371,9 @@ pub fn run(ctx: &Ctx, rep: &mut Report) {
         }
         rep.count("batches_ok");
         rep.count(&format!("batches_ok_{mode}"));
+        if etch {
+          rep.count("batches_ok_with_etching");
+        }
         rep.add("inscriptions_created_and_compared", n as u64);
         if !parents.is_empty() {
           rep.count("batches_ok_with_parents");
